@@ -39,6 +39,13 @@ struct SpanRec {
     acc: Vec<(u8, Vec<bool>)>,
     /// the global filters accepted it (a globally rejected span is never created)
     exists: bool,
+    /// index (in the thread's stack) of the span's parent: the span that was current in the
+    /// registry when it was created, unless it was created as an explicit root
+    parent: Option<usize>,
+    /// the span handle is not disabled (taken from the implementation: a span that every per-layer
+    /// filter rejects dynamically is still created, one that all reject statically is not; this
+    /// only decides which entry later contextual spans hang under, never what a layer may see)
+    created: bool,
 }
 
 #[derive(Default, Clone)]
@@ -60,6 +67,7 @@ struct ThreadWorld {
 enum Cmd {
     Ev(usize),
     Open(usize),
+    OpenRoot(usize),
     Close,
     Rec,
     Probe(usize),
@@ -95,6 +103,12 @@ fn spawn_thread(t: u64, d: tracing_core::Dispatch) -> ThreadWorld {
                 }
                 Cmd::Open(i) => {
                     let s = (cs[i].open)();
+                    let enabled = !s.is_disabled();
+                    open.push(s.entered());
+                    Rep::Opened(enabled)
+                }
+                Cmd::OpenRoot(i) => {
+                    let s = stack::open_root(i);
                     let enabled = !s.is_disabled();
                     open.push(s.entered());
                     Rep::Opened(enabled)
@@ -155,13 +169,27 @@ fn run_history(cfg: &Config, history: &[String]) -> StepOut {
         let bits_before = bits[t];
         // cached interest of the callsite about to be hit (F3 needs `always`: enabled() is skipped, so
         // nothing recomputes the stale bits; with `sometimes` enabled() runs and must overwrite them)
-        let cached_interest: Option<u8> = if matches!(p[1], "ev" | "open") {
+        let cached_interest: Option<u8> = if matches!(p[1], "ev" | "open" | "openroot") {
             let name = cs[p[2].parse::<usize>().unwrap()].meta.name;
             tracing::__macro_support::__verif_snapshot().iter().find(|(m, _, _)| m.name() == name).map(|(_, i, _)| *i)
         } else {
             None
         };
         let visible_ctx = |st: &Vec<SpanRec>, l: u8| -> Vec<&'static str> { st.iter().filter(|s| s.visible.contains(&l)).map(|s| cs[s.cs].meta.name).collect() };
+        // the spans layer `l` finds by walking up from stack entry `j` through the parent links
+        let scope_from = |st: &Vec<SpanRec>, j: Option<usize>, l: u8| -> Vec<String> {
+            let mut out = vec![];
+            let mut cur = j;
+            while let Some(i) = cur {
+                if st[i].visible.contains(&l) {
+                    out.push(cs[st[i].cs].meta.name.to_string());
+                }
+                cur = st[i].parent;
+            }
+            out
+        };
+        // the entry `lookup_current()` yields for layer `l`: the topmost entered span it can see
+        let current_idx = |st: &Vec<SpanRec>, l: u8| -> Option<usize> { st.iter().rposition(|s| s.visible.contains(&l)) };
         // verdict of every filter on every layer's path; filter k sees the spans that it and every
         // filter outside it accepted (Context::with_filter combines the ids from the outside in)
         let verdicts = |m: &Meta, st: &Vec<SpanRec>| -> Vec<(u8, Vec<bool>)> {
@@ -202,20 +230,24 @@ fn run_history(cfg: &Config, history: &[String]) -> StepOut {
                 let r = receivers(&m, &stacks[t]);
                 for l in &r {
                     let ctx = visible_ctx(&stacks[t], *l);
-                    let scope: Vec<String> = ctx.iter().rev().map(|s| s.to_string()).collect();
+                    let scope: Vec<String> = scope_from(&stacks[t], current_idx(&stacks[t], *l), *l);
                     expected.push((*l, "event".into(), m.name.into(), ctx.last().map(|s| s.to_string()), Some(scope)));
                 }
                 emission = Some((m, r));
                 reply = call(&threads[t], Cmd::Ev(i));
             }
-            "open" => {
+            "open" | "openroot" => {
                 let i: usize = p[2].parse().unwrap();
+                let root = p[1] == "openroot";
                 let m = cs[i].meta.clone();
                 let r = receivers(&m, &stacks[t]);
+                // the contextual parent is the thread's current span in the registry: the topmost
+                // entry whose span was actually created
+                let parent: Option<usize> = if root { None } else { stacks[t].iter().rposition(|s| s.created) };
                 for l in &r {
                     let ctx = visible_ctx(&stacks[t], *l);
                     let mut scope: Vec<String> = vec![m.name.to_string()];
-                    scope.extend(ctx.iter().rev().map(|s| s.to_string()));
+                    scope.extend(scope_from(&stacks[t], parent, *l));
                     expected.push((*l, "new_span".into(), m.name.into(), ctx.last().map(|s| s.to_string()), Some(scope)));
                 }
                 for l in &r {
@@ -226,9 +258,10 @@ fn run_history(cfg: &Config, history: &[String]) -> StepOut {
                     globals.iter().all(|g| g.accepts(&m, &ctx))
                 };
                 let acc = verdicts(&m, &stacks[t]);
-                stacks[t].push(SpanRec { cs: i, visible: r.clone(), acc, exists });
-                emission = Some((m, r));
-                reply = call(&threads[t], Cmd::Open(i));
+                emission = Some((m, r.clone()));
+                reply = call(&threads[t], if root { Cmd::OpenRoot(i) } else { Cmd::Open(i) });
+                let created = matches!(reply, Rep::Opened(true));
+                stacks[t].push(SpanRec { cs: i, visible: r, acc, exists, parent, created });
             }
             "rec" => {
                 let top = stacks[t].last().unwrap().clone();
@@ -319,12 +352,12 @@ fn run_history(cfg: &Config, history: &[String]) -> StepOut {
                 let f3 = cfg.f3_open && bits_before != 0 && cached_interest == Some(2) && !extra && emission.is_some() && missing_layers.iter().all(|l| probe_rejecters[t].contains(l)) && !matches!(reply, Rep::Panic(_));
                 if f3 {
                     out.known.push("F3".into());
-                    if p[1] == "open" {
+                    if p[1] == "open" || p[1] == "openroot" {
                         out.cut = true; // the span now carries the stale verdict for its whole life
                     }
                     // the model follows the implementation's verdict for the rest of the history
                     if let Some(top) = stacks[t].last_mut() {
-                        if p[1] == "open" {
+                        if p[1] == "open" || p[1] == "openroot" {
                             top.visible.retain(|l| !missing_layers.contains(l));
                         }
                     }
@@ -371,6 +404,12 @@ fn run_history(cfg: &Config, history: &[String]) -> StepOut {
         if stacks[t].len() < cfg.max_spans {
             for i in 6..9 {
                 next.push(format!("{}:open:{}", t, i));
+            }
+            // explicit roots only above an entered span (elsewhere they equal the contextual ones)
+            if !stacks[t].is_empty() {
+                for i in 6..9 {
+                    next.push(format!("{}:openroot:{}", t, i));
+                }
             }
         }
         for i in 0..9 {
@@ -435,6 +474,9 @@ fn warm_up() {
             (c.emit)();
             let _ = (c.probe)();
             drop((c.open)());
+        }
+        for i in 6..9 {
+            drop(stack::open_root(i));
         }
     });
     stack::flog_clear();
